@@ -105,9 +105,11 @@ func genH(r *Rng, mixNS bool) []Op {
 		ops = append(ops, Op{Kind: "writefile", P: "b", Data: smallData(r), Perm: 0o600})
 		files = append(files, "b")
 	}
+	haveDir := false
 	if r.Intn(3) == 0 {
 		ops = append(ops, Op{Kind: "mkdir", P: "ab", Perm: 0o755})
 		ops = append(ops, Op{Kind: "writefile", P: "ab/a", Data: smallData(r), Perm: 0o644})
+		haveDir = true
 	}
 	var hs []hShadow
 	size := 8 // rough size used only to aim offsets
@@ -132,7 +134,7 @@ func genH(r *Rng, mixNS bool) []Op {
 		isDir := false
 		if r.Intn(10) == 0 {
 			p, flag, isDir = ".", 0, true
-			if r.Intn(2) == 0 {
+			if haveDir && r.Intn(2) == 0 { // only a directory that exists: a failed open would shift the handle numbering
 				p = "ab"
 			}
 		}
@@ -166,7 +168,8 @@ func genH(r *Rng, mixNS bool) []Op {
 			case 1:
 				ops = append(ops, Op{Kind: "h:readat", H: h, N: r.Range(1, 4), Off: int64(r.Range(0, 3))})
 			case 2:
-				ops = append(ops, Op{Kind: "h:readdir", H: h, N: r.Range(-1, 3)})
+				// whole listings only: which entries a partial page holds depends on the store's order (paging is C16's)
+				ops = append(ops, Op{Kind: "h:readdir", H: h, N: []int{-1, 0, 50}[r.Intn(3)]})
 			case 3:
 				ops = append(ops, Op{Kind: "h:stat", H: h})
 			default:
@@ -256,6 +259,13 @@ func runH(r *Rng, n int, mixNS bool) {
 		for i, o := range ops {
 			if len(o.Kind) > 2 && o.Kind[:2] == "h:" && o.H >= len(impl.Handles) {
 				continue // the handle was never opened (open failed): drop the op
+			}
+			if len(o.Kind) > 2 && o.Kind[:2] == "h:" && hclass[o.H] == "dir" {
+				switch o.Kind {
+				case "h:read", "h:readat", "h:readdir", "h:stat", "h:close":
+				default:
+					continue // seeking or writing a directory handle is outside C02/C17 (the generator aims these at files)
+				}
 			}
 			a := impl.Apply(o)
 			as := Snapshot(implFS, cands)
